@@ -893,6 +893,17 @@ theorem trusted_region_exhaustive (c : ClassOpts) (fields : List (String × Fiel
     tsafeCls (.struct c fields ds) = true ∨ declDefects (.struct c fields ds) ≠ [] :=
   c10_region_exhaustive c fields ds
 
+/-- … and so does every document: inside `plainDoc` or at least one named issue of `docIssues` -/
+theorem trusted_partition_exhaustive (opts : DeserOpts) (c : ClassOpts) (fields : List (String × FieldDecl))
+    (ds : List (String × PyVal)) (d : PyVal) :
+    (tsafeCls (.struct c fields ds) = true ∧ plainDoc opts (.struct c fields ds) d = true)
+      ∨ declDefects (.struct c fields ds) ≠ [] ∨ docIssues opts (.struct c fields ds) d ≠ [] := by
+  rcases trusted_region_exhaustive c fields ds with h1 | h1
+  · rcases c10_doc_exhaustive opts (.struct c fields ds) d with h2 | h2
+    · exact Or.inl ⟨h1, h2⟩
+    · exact Or.inr (Or.inr h2)
+  · exact Or.inr (Or.inl h1)
+
 example : tsafeCls cxOptImmSet = false ∧ declDefects cxOptImmSet = ["unnormalised:optional-immutable-set"] := by decide
 
 end Typedpy.C10
